@@ -1097,11 +1097,15 @@ func e20LogTok(s *e20Suite, l *ethtypes.Log) string {
 	if len(l.Topics) > 2 {
 		to = s.alias(common.BytesToAddress(l.Topics[2].Bytes()).Bytes())
 	}
+	// the amount is what the real ABI decoder makes of the data under the Transfer layout ("-": it refuses the data); the raw
+	// data goes on the trace too: the driver decodes it with the Lean model of the contract ABI and demands the same verdict
 	amt := "-"
-	if len(l.Data) >= 32 && len(l.Data)%32 == 0 {
-		amt = new(big.Int).SetBytes(l.Data[:32]).String()
+	if vals, err := erc20ABI().Unpack("Transfer", l.Data); err == nil && len(vals) > 0 {
+		if v, ok := vals[0].(*big.Int); ok {
+			amt = v.String()
+		}
 	}
-	return fmt.Sprintf("%s/%d/%s/%s/%s/%s", s.alias(l.Address.Bytes()), len(l.Topics), isT, from, to, amt)
+	return fmt.Sprintf("%s/%d/%s/%s/%s/%s/%s", s.alias(l.Address.Bytes()), len(l.Topics), isT, from, to, amt, hex.EncodeToString(l.Data))
 }
 
 // opHook: PostTxProcessing called directly with a constructed (possibly forged) receipt
@@ -1153,6 +1157,10 @@ func (s *e20Suite) opHook() {
 			topics = nil
 		case 5:
 			data = append(data, word(big.NewInt(7))...)
+		case 6: // trailing bytes that do not fill a word
+			data = append(data, make([]byte, 1+r.Intn(31))...)
+		case 7:
+			data = nil
 		}
 		logs = append(logs, &ethtypes.Log{Address: emitter, Topics: topics, Data: data})
 	}
